@@ -10,13 +10,19 @@ import (
 )
 
 func main() {
+	if len(os.Args) > 1 && os.Args[1] == "repro" {
+		os.Exit(reproMain(os.Args[2:]))
+	}
 	vh.Main(vh.Prop{
 		ID:    "C06",
 		Level: "exploration",
-		Rule: "Three monitors; the case name says which. (pair) two proxies differing in exactly one attribute of a fixed list (namespace, selector labels, network, cluster, locality, node, type, version, IP mode, metadata flags, proxy config, identity) " +
-			"in a world template (mesh / registry / mesh-registry-only) x base profile x base variant: with the real shared XdsCache warmed by one, the other's CDS+EDS+RDS must equal generation by uncached generators on the same snapshot, both orders, " +
-			"plus each proxy re-served from its own entries; quick = every attribute in two worlds, thorough = full attribute x world x profile product plus PRNG base variants. " +
-			"(hist) PRNG histories of config/endpoint changes through the real ingestion with connected ADS clients being pushed concurrently; at every quiescent point every check proxy served from the warm shared cache == uncached generation. " +
+		Rule: "Three monitors; the case name says which; one evaluation = one proxy pair / one history checkpoint / one cache run. " +
+			"(pair) two proxies differing in exactly one attribute of a fixed list (namespace, selector labels, network, cluster, locality, node, type, version, IP family, metadata flags incl. credential sockets and EnvoyFilter proxy-match metadata, proxy config, identity, DNS domain) " +
+			"in a world template (mesh / registry / mesh-registry-only; multi-network with IPv4 and IPv6 east-west gateways) x base profile x base variant: with the real shared XdsCache warmed by one, the other's CDS+EDS+RDS must equal generation by uncached generators on the same snapshot, both orders, " +
+			"plus each proxy re-served from its own entries; quick = every attribute in two worlds on PRNG-chosen profiles/variants plus the full attribute x world x profile product on plain bases, thorough adds 260 PRNG base variants. " +
+			"A difference is keyed key-incomplete:<type>:<attribute>; when input shape and diff shape match a root cause analysed down to the missing key field (explain.go, reproductions: xdscache repro list) the key is key-incomplete:cause=<root cause>:<type>:<attribute> instead. " +
+			"(hist) PRNG histories of config/endpoint changes through the real ingestion with connected ADS clients being pushed concurrently; at every quiescent point every check proxy served from the warm shared cache == uncached generation, " +
+			"and right after EDSUpdate returned on an idle control plane EDS from the cache == uncached EDS. " +
 			"(lru) 8 goroutines on model.NewXdsCache() following the callers' protocol (Start token, then read versioned source, then Add; updater bumps then Clear/ClearAll), version-tagged values, " +
 			"checked over the recorded history with a logical clock, plus index invariants at quiescence; strata: key-space/size ratios (LRU eviction), single writer, flush interval. " +
 			"Non-trivial: pair whose second proxy got >=1 cache hit or whose attribute changes fresh output; history checkpoint with >=1 cache hit on an entry and >=1 resource changed since the previous checkpoint; " +
@@ -25,13 +31,15 @@ func main() {
 			"reference = istio's own generators on the same environment and push context with model.DisabledCache (the oracle compares cache on/off, it does not judge generation itself)",
 			"the fake server is rewired so that discovery server, generators and endpoint index share one XdsCache as in bootstrap.NewServer",
 			"fresh generation must be reproducible for a difference to count (otherwise the case is inconclusive and left to C17)",
-			"cache tokens are wall-clock nanoseconds inside istio: a stale value whose writer's Start is not strictly before the covering Clear's call time is classified as a clock tie (inconclusive)",
+			"cache tokens are wall-clock nanoseconds inside istio: a stale value whose writer's Start is not strictly before the covering Clear's call time is classified as a clock tie (inconclusive); a run during which the wall clock stepped back reports nothing",
+			"the (lru) monitor treats the documented mechanism 'PeerAuthentication change => all EDS entries dropped' as part of the protocol: EDS entries carry a PeerAuthentication epoch although they do not declare the dependency",
+			"SDS entries are exercised only in (lru); the pair and history monitors cover CDS, EDS and RDS of sidecars and routers (gateway routes are not cached by istio)",
 		},
 		Anchors: []string{
 			"pilot/pkg/model/typed_xds_cache.go", "pilot/pkg/model/xds_cache.go", "pilot/pkg/xds/endpoints/endpoint_builder.go",
 			"pilot/pkg/networking/core/cluster_cache.go", "pilot/pkg/networking/core/route/route_cache.go",
 		},
-		MinNontrivial: func(t string) int { return map[string]int{"quick": 60, "thorough": 500}[t] },
+		MinNontrivial: func(t string) int { return map[string]int{"quick": 250, "thorough": 1500}[t] },
 		Batches:       func(t string) int { return map[string]int{"quick": 6, "thorough": 8}[t] },
 		Parallel:      func(t string) int { return map[string]int{"quick": 6, "thorough": 8}[t] },
 		TimeoutSec:    func(t string) int { return map[string]int{"quick": 420, "thorough": 2400}[t] },
